@@ -17,14 +17,21 @@ PROP = {
              "registry empty afterwards, reconnect within 5 s of a failed send and later calls succeed, Connection.mu never "
              "stuck; soak with the unmodified constructors (NewConnection/NewClient/OptionWorkersPerConnection, pings "
              "answered): 3000 calls from 32 goroutines, goroutine count before/after, idle connections closed by the server "
-             "are re-established via the ping path within 15 s; go/ast check of the statement order in Request / "
+             "are re-established via the ping path within 15 s; the silence rule on the wall clock (three 12 s scenarios "
+             "overlapping the rest, compared as c12.seq histories with one 'tick per second): pong-keeps-alive (real ping "
+             "goroutine, every ping answered, warm-up call, idle 9.2 s, call answered at 11.7 s with a 6 s client timeout: "
+             "own answer, exactly one transport connection, pings seen, round trip measured), nonce-keeps-alive (only auth "
+             "nonces every 2.5 s), silent-reconnects (no traffic: a second connection between 9.5 and 16 s; a reconnect "
+             "nobody requested is accepted by the model only after 10 ticks without any packet); go/ast check of the statement order in Request / "
              "registerCallback / processQueryAnswer. A class is (kind, connections, callers bucket, waves/drop or race shape "
              "or history shape, outcome)."),
     'explanation': ("coq/Properties/C12.v: for every trace of the labelled transition system of client.go + the status machine of "
                     "connection.go (any number of callers and connections, any server behaviour, any drops): a call that returns "
                     "data returns an answer emitted for its own query id and it is the only delivery to it; the reader never blocks; "
                     "a waiting call always has its timeout enabled and no unreturned call is stuck; the registry holds in-flight "
-                    "calls only and is empty when idle; at most one reconnect loop per connection; a new call over an established "
+                    "calls only and is empty when idle; at most one reconnect loop per connection; the silence rule "
+                    "fires only after a full period without a packet of any kind (a connection fed at least once per period "
+                    "is never dropped by it); a new call over an established "
                     "connection completes. The extracted model predicts or accepts every generated history of the real client."),
     'assumptions': ["query ids of concurrently in-flight calls are distinct (256-bit math/rand ids); visible premise of C12_no_foreign_answer",
                     "data races, goroutine leaks and wall-clock bounds (deadline, reconnect latency) are runtime facts not exhibited by the "
@@ -38,7 +45,8 @@ META = {
              "query-id registry, capacity-1 reply channels, per-connection readers, round robin) and the Connecting/Connected "
              "machine of connection.go (drop, failed send, ping failure, silence, reconnect requests and loop), by induction over "
              "all traces: own answer only (and, for distinct ids, never another call's), the reader never blocks, timeout always "
-             "enabled and no stuck call, registry = in-flight calls and empty when idle, at most one reconnect loop, a new call "
+             "enabled and no stuck call, registry = in-flight calls and empty when idle, at most one reconnect loop, silence rule only after a "
+             "full period without any packet, a new call "
              "over an established connection completes. The real client is run against an in-process ADNL server; the extracted "
              "model predicts synchronised scripts exactly and accepts (as its own traces) the histories the scheduler decides. "
              "One deadlock found and repaired (auth nonce without auth key)."),
